@@ -216,3 +216,42 @@ Proof. intros H. apply allowed_with_sound in H as (ds & [_ Hl _ _ Hi Ht _]). eau
 Theorem conforming_allowed now ld i ds aud :
   spec_allowed now ld i (i_args i) ds -> allowed now ld (set_irrelevant aud i) = true.
 Proof. intros H. rewrite audience_irrelevant. eapply allowed_with_complete. exact H. Qed.
+
+(* ---------- the instants at which a token, a chain, a decision is valid form an interval ---------- *)
+Lemma valid_at_convex nbf exp t1 t2 t : (t1 <= t <= t2)%Z ->
+  valid_at nbf exp t1 = true -> valid_at nbf exp t2 = true -> valid_at nbf exp t = true.
+Proof.
+  unfold valid_at. intros Ht H1 H2.
+  apply andb_true_iff in H1 as [_ H1n]. apply andb_true_iff in H2 as [H2e _].
+  apply andb_true_iff. split.
+  - destruct exp as [e|]; [|reflexivity]. apply negb_true_iff in H2e. apply negb_true_iff.
+    apply Z.ltb_ge in H2e. apply Z.ltb_ge. lia.
+  - destruct nbf as [n|]; [|reflexivity]. apply negb_true_iff in H1n. apply negb_true_iff.
+    apply Z.ltb_ge in H1n. apply Z.ltb_ge. lia.
+Qed.
+
+Lemma verify_time_convex i ds t1 t2 t : (t1 <= t <= t2)%Z ->
+  verify_time t1 i ds = true -> verify_time t2 i ds = true -> verify_time t i ds = true.
+Proof.
+  unfold verify_time, inv_valid_at, dlg_valid_at. intros Ht H1 H2.
+  apply andb_true_iff in H1 as [H1i H1d]. apply andb_true_iff in H2 as [H2i H2d].
+  apply andb_true_iff. split; [eapply valid_at_convex; eassumption|].
+  rewrite forallb_forall in *. intros d Hd. eapply valid_at_convex; [exact Ht|apply H1d|apply H2d]; exact Hd.
+Qed.
+
+(* a decision that is "allowed" at two instants is "allowed" at every instant in between: nothing but the
+   time stage looks at the clock *)
+Theorem allowed_convex ld i t1 t2 t : (t1 <= t <= t2)%Z ->
+  allowed t1 ld i = true -> allowed t2 ld i = true -> allowed t ld i = true.
+Proof.
+  unfold allowed, allowed_with. intros Ht H1 H2. destruct (load ld (i_prf i)) as [ds|]; [|discriminate].
+  apply andb_true_iff in H1 as [H1 H1a]. apply andb_true_iff in H1 as [H1p H1t].
+  apply andb_true_iff in H2 as [H2 _]. apply andb_true_iff in H2 as [_ H2t].
+  rewrite H1p, H1a, (verify_time_convex i ds t1 t2 t Ht H1t H2t). reflexivity.
+Qed.
+
+(* ... and once expired, expired for good; before the not-before, not yet valid at any earlier instant *)
+Lemma expired_stays_expired nbf e t t' : (e < t)%Z -> (t <= t')%Z -> valid_at nbf (Some e) t' = false.
+Proof. intros H1 H2. unfold valid_at. replace (e <? t')%Z with true by (symmetry; apply Z.ltb_lt; lia). reflexivity. Qed.
+Lemma not_yet_valid_before n exp t t' : (t < n)%Z -> (t' <= t)%Z -> valid_at (Some n) exp t' = false.
+Proof. intros H1 H2. unfold valid_at. replace (t' <? n)%Z with true by (symmetry; apply Z.ltb_lt; lia). apply andb_false_r. Qed.
